@@ -270,6 +270,9 @@ def _make_vecnorm(case, obs_sp, act_sp):
 
 def run_impl(case):
     import numpy as np
+    import torch as th
+
+    th.set_num_threads(1)
 
     from stable_baselines3.common.buffers import DictReplayBuffer, ReplayBuffer
 
@@ -548,7 +551,7 @@ def run_cases(chk, cases, name="C03"):
             impls.append(run_impl(c))
         except Exception as e:  # an exception of the implementation on a well-formed op list is itself a result
             impls.append({"refused": None, "crash": f"{type(e).__name__}: {e}", "obs": []})
-    vals = common.coq_eval_many(name, HEADER, [model_expr(c) for c in cases], shard=50, procs=8)
+    vals = common.coq_eval_many(name, HEADER, [model_expr(c) for c in cases], shard=50, procs=4)
     results = []
     for c, im, mv in zip(cases, impls, vals):
         if im.get("crash"):
